@@ -12,7 +12,7 @@ vars == <<buf, at, ins>>
 Cells == {0, 1, 3}
 LinesUpTo(n) == UNION { [1..k -> Cells] : k \in 0..n }
 Bufs == UNION { [1..k -> LinesUpTo(MaxCells)] : k \in 1..MaxLines }
-Init == buf \in Bufs /\ at \in 1..Len(buf) /\ ins \in UNION { [1..k -> LinesUpTo(1)] : k \in 1..2 }
+Init == buf \in Bufs /\ at \in 1..(Len(buf) + 1) /\ ins \in UNION { [1..k -> LinesUpTo(1)] : k \in 1..2 }
 Next == UNCHANGED vars
 Spec == Init /\ [][Next]_vars
 
@@ -30,6 +30,10 @@ NoOtherPos == \A p \in Exact : \A l \in 1..Len(buf) : \A c \in 1..(MaxCells + 1)
 \* positions at or after the insertion line move by the inserted lines / bytes; the others stay
 ShiftSound == \A p \in Exact : LET q == ShiftPos(St, at, Len(ins), InsBytes(ins), p[1], p[2], p[3]) IN ExactPos(New, NSt, q[1], q[2], q[3])
 LenAdditive == BufLenSt(New, NSt) = BufLenSt(buf, St) + InsBytes(ins)
+\* appending after the last line: the old end of the buffer becomes the end of the last appended line
+AppendSound == at = Len(buf) + 1 => /\ EofPos(New) = <<EofPos(buf)[1] + InsBytes(ins), Len(buf) + Len(ins), Len(ins[Len(ins)]) + 1>>
+                                    /\ ExactPos(New, NSt, EofPos(New)[1], EofPos(New)[2], EofPos(New)[3])
+                                    /\ EofPos(buf) \in Exact
 \* blanks: a whole line of blanks is blank between its ends
 BlankSound == \A l \in 1..Len(buf) : (\A k \in DOMAIN buf[l] : buf[l][k] = 0) => BlankBetween(buf, St, St[l], St[l] + LineBytes(buf[l]))
 =============================================================================
